@@ -1,5 +1,6 @@
 import FoxModel.Util
 import FoxModel.Model.Serve
+import FoxModel.Model.MachineServe
 import FoxModel.Model.LocationRaw
 import FoxModel.Driver.Ops
 /-
@@ -70,12 +71,16 @@ def handle (fields : List String) : String :=
         -- esc: URL.EscapedPath() (standard library, supplied by the harness)
         let p := fromHex! path
         let up := fromHex! urlPathH
-        let o := serve cfg tree.roots (ascii m) (fromHex! host) p up
+        -- the decision over the state machines (recording lookup for the request, lazy lookups in the Allow loops) is what is
+        -- compared with the implementation; it must equal the serving model the C08 / C11 theorems speak about
+        let o := Machine.serve cfg tree.roots (ascii m) (fromHex! host) p up
+        let o0 := serve cfg tree.roots (ascii m) (fromHex! host) p up
+        let mtag := if showOutcome o == showOutcome o0 && o.tags == o0.tags then [] else ["machine-vs-walk"]
         let s := Spec.serve cfg methods (fun x => store.routesOf x) (ascii m) (fromHex! host) p up
         let loc := if o.kind == Kind.redirect then ":" ++ toHex (Location.redirectLocation (fromHex! rawH) (fromHex! escH) (fromHex! query)) else ""
         (showOutcome o ++ loc, if Ops.hasEmptySeg p then "skip" else showServed s, o.tags ++ [match o.kind with
           | .route => "k-route" | .redirect => "k-redirect" | .options => "k-options" | .noMethod => "k-nomethod"
-          | .noRoute => "k-noroute" | .bad => "k-bad"] ++ (if rawH != "_" then ["raw-path"] else []))
+          | .noRoute => "k-noroute" | .bad => "k-bad"] ++ (if rawH != "_" then ["raw-path"] else []) ++ mtag)
       | _ => ("bad-req", "bad-req", [])
     -- finding tags carry the index of the request they belong to (attribution is per request)
     let indexed := (List.range res.length).zip res
